@@ -544,8 +544,8 @@ def to_coq(cfg, regex_ok):
         "default_connect_timeout" if g["connect_timeout"] is None else str(g["connect_timeout"]),
         "default_idle_timeout" if g["idle_timeout"] is None else str(g["idle_timeout"]),
         "default_server_lifetime" if g["server_lifetime"] is None else str(g["server_lifetime"]),
-        copt(None if g["tls"] is None or g["tls"]["cert"] is None else regex_ok[("cert", g["tls"]["cert"])], cb),
-        copt(None if g["tls"] is None or g["tls"]["key"] is None else regex_ok[("key", g["tls"]["key"])], cb),
+        copt(None if g["tls"] is None or g["tls"]["cert"] is None else regex_ok[("cert", g["tls"]["cert"])]),
+        copt(None if g["tls"] is None or g["tls"]["key"] is None else regex_ok[("key", g["tls"]["key"])]),
         cplug(g["plugins"]), "; ".join(pools)))
     return "[%s]" % "; ".join(raws), c
 
@@ -646,8 +646,8 @@ def monitor(cfg, r):
             bad.append("SHOW DATABASES lists %s, pools hold %s" % (got[:6], want[:6]))
     if r.get("show", "ok") != "ok":
         bad.append("Config::show(): %s" % r["show"])
-    if str(r.get("tls", "ok")).startswith("panic"):
-        bad.append("Tls::new(): %s" % r["tls"])
+    if r.get("tls", "ok") != "ok":
+        bad.append("Tls::new() on an accepted configuration: %s" % r["tls"])
     return bad
 
 
@@ -736,6 +736,9 @@ CORPUS = [
     ("TLS pair loads, shard keys {1,2} (the pool checks must still run)", _G + 'tls_certificate = %s\ntls_private_key = %s\n' % (json.dumps(CERT), json.dumps(KEY)) + "[pools.db]\n" + _U + _one("1", 1) + _one("2", 2), False),
     ("TLS pair loads, pool_size = 0", _G + 'tls_certificate = %s\ntls_private_key = %s\n' % (json.dumps(CERT), json.dumps(KEY)) + "[pools.db]\n" + _U.replace("pool_size = 5", "pool_size = 0") + _S0, False),
     ("TLS pair loads, valid pools", _G + 'tls_certificate = %s\ntls_private_key = %s\n' % (json.dumps(CERT), json.dumps(KEY)) + "[pools.db]\n" + _U + _S0, True),
+    ("D7 tls pair swapped (key file holds no private key)", _G + 'tls_certificate = %s\ntls_private_key = %s\n' % (json.dumps(KEY), json.dumps(CERT)) + "[pools.db]\n" + _U + _S0, False),
+    ("D7 tls_private_key = the certificate file", _G + 'tls_certificate = %s\ntls_private_key = %s\n' % (json.dumps(CERT), json.dumps(CERT)) + "[pools.db]\n" + _U + _S0, False),
+    ("D7 tls_certificate = the key file", _G + 'tls_certificate = %s\ntls_private_key = %s\n' % (json.dumps(KEY), json.dumps(KEY)) + "[pools.db]\n" + _U + _S0, False),
     ("tls_certificate without tls_private_key", _G + 'tls_certificate = %s\n' % json.dumps(CERT) + "[pools.db]\n" + _U + _S0, False),
     ("D6 auth_query_user/password without auth_query (pool)", _G + '[pools.db]\nauth_query_user = "a"\nauth_query_password = "b"\n' + _U + _S0, True),
     ("D6 auth_query_user/password without auth_query ([general])", _G + 'auth_query_user = "a"\nauth_query_password = "b"\n[pools.db]\n' + _U + _S0, True),
@@ -863,10 +866,11 @@ def check(run):
     # the real loaders' verdicts on the TLS files (environment bits of the model, like the regex verdicts)
     write_tls_files()
     tl = run_harness(binp, [{"op": "tls", "paths": TLS_PATHS}])[0]
-    for pth, c_ok, k_ok in zip(TLS_PATHS, tl["certs"], tl["keys"]):
-        regex_ok[("cert", pth)] = c_ok
-        regex_ok[("key", pth)] = k_ok
-    if not (regex_ok[("cert", CERT)] and regex_ok[("key", KEY)]):
+    lv = lambda n: "LoadErr" if n < 0 else ("LoadEmpty" if n == 0 else "LoadSome")
+    for pth, nc, nk in zip(TLS_PATHS, tl["certs"], tl["keys"]):
+        regex_ok[("cert", pth)] = lv(nc)
+        regex_ok[("key", pth)] = lv(nk)
+    if not (regex_ok[("cert", CERT)] == "LoadSome" and regex_ok[("key", KEY)] == "LoadSome"):
         run.broken.append("the repository's CI certificate/key (%s, %s) do not load: the TLS part of the grammar cannot be run" % (CERT, KEY))
 
     cases = gen_cases(rng, 900 if quick else 12000)
@@ -898,13 +902,7 @@ def check(run):
         # monitor first: the property on the implementation alone
         probs = monitor(cfg, r)
         show_only = [p for p in probs if p.startswith("Config::show()")]
-        tls_only = [p for p in probs if p.startswith("Tls::new()")]
-        probs = [p for p in probs if not p.startswith("Config::show()") and not p.startswith("Tls::new()")]
-        if tls_only:
-            # reported to the coordinator (tls_private_key file without a key: accepted, Tls::new panics per TLS client);
-            # outside the pools/shards/users theorem: recorded
-            ob = run.cov.setdefault("observations", {})
-            ob["Tls::new() panics on an accepted tls_private_key file that holds no private key"] = ob.get("Tls::new() panics on an accepted tls_private_key file that holds no private key", 0) + 1
+        probs = [p for p in probs if not p.startswith("Config::show()")]
         # the verdict must not depend on a loadable TLS pair: same file without it, generated just before
         if names and names[-1] == "tls:pair" and i > 0 and cases[i - 1][0] == names[:-1] and bool(res[i - 1].get("accept")) != bool(r.get("accept")):
             run.violation("counterexample", "the verdict depends on tls_certificate/tls_private_key: %s without, %s with a loadable pair (mutations %s)" % (
